@@ -293,6 +293,22 @@ def check_pipelines(rep, prog, fm, cfg):
                     e2 = implies(and_(want, *[c2 for c2 in conj(cond) if c2 not in conj(core)]), cond)[0]
                     inc_ok = e1 and e2
                     detail = "count increments under %r" % (cond,)
+        if not inc_ok and L is not None:
+            # ... or the number is taken at once: sum(<selected?> for each file) - the count of the files for which it holds
+            for P in [e for e in fm.events if e.kind == "print" and q in e.stack and not e.loops and e.data[0]]:
+                for x in walk(fm.norm(P.data[0][0])):
+                    if isinstance(x, Op) and x.op == "count" and x.args[0] == Const(L.lid) and not inc_ok:
+                        cond = fm.norm(x.args[1])
+                        cond = subst(cond, {t_: t_.args[0] for t_ in walk(cond) if isinstance(t_, Op) and t_.op == "truthy" and
+                                            isinstance(t_.args[0], Op) and t_.args[0].op.startswith("call:")})     # bool(f(..)) as a condition is f(..)
+                        ph_ok = Op("getitem", Op("call:" + PT + "generatePH", *[fm.norm(y) for y in seq[0].data[1]]), Const(0))
+                        uh_ok = Op("getitem", Op("call:" + PT + "generateUH", *[fm.norm(y) for y in seq[1].data[1]]), Const(0))
+                        cp_ok = Op("call:" + PT + "considerPEL", *[fm.norm(y) for y in cp.data[1]])
+                        want = and_(ph_ok, uh_ok, cp_ok)
+                        excs = [y for y in walk(cond) if isinstance(y, Sym) and y.kind == "exc"]
+                        noexc = and_(*[not_(y) for y in excs])
+                        inc_ok = implies(cond, want)[0] and implies(and_(want, noexc), cond)[0]
+                        detail = "count = number of files with %r" % (cond,)
         ok = ok and inc_ok
     rep.check(ok, rule, "count mode: +1 exactly when PH ok, UH ok and considerPEL(uh, config)", q, "count += 1",
               "the count is not incremented exactly once per file that passes PH, UH and considerPEL with the same config (%s)" % detail)
